@@ -146,6 +146,9 @@ def build(case, kins):
     th = cards.theory(PTO=pto, FNS=scheme, NfFF=nfff, TMC=tmc, RenScaleVar=ren, FactScaleVar=fact)
     if case.get("pto_evol") is not None:
         th["PTODIS"], th["PTO"] = pto, case["pto_evol"]
+    if pto == 3 and scheme != "ZM-VFNS":
+        # the three documented variants of the approximate N3LO massive coefficient functions, from the cell coordinates
+        th["n3lo_cf_variation"] = [0, 1, -1][(len(kind) + len(hv) + nfff + tmc + len(process)) % 3]
     deep = case.get("deep") and all(k.get("x") in [c["x"] for c in CORNER] for k in kins)
     ob = cards.observables(prDIS=process, ProjectileDIS=proj, interpolation_xgrid=list(DEEP if deep else GRID), interpolation_polynomial_degree=3)
     name = f"{kind}_{hv}"
